@@ -184,11 +184,20 @@ func (csm *ClusterShardMapper) mapMstShards(s *influxql.Measurement, csming *Clu
 				groupShardKeyInfo = measurements[0].GetShardKey(groups[i].ID)
 			}
 			aliveShardIdxes := csm.MetaClient.GetAliveShards(s.Database, &groups[i], true)
+			// under hard-write the write path hashes over every shard of the group, whatever the state of the partitions:
+			// the shard of a key is looked up in that same list, and only then reduced to the shards that can be read
+			lookupShardIdxes := aliveShardIdxes
+			if config.IsHardWrite() {
+				lookupShardIdxes = csm.MetaClient.GetAliveShards(s.Database, &groups[i], false)
+			}
 			var shs []meta2.ShardInfo
 			if opt.HintType == hybridqp.FullSeriesQuery || opt.HintType == hybridqp.SpecificSeriesQuery {
-				shs, csming.seriesKey = groups[i].TargetShardsHintQuery(measurements[0], groupShardKeyInfo, condition, opt, aliveShardIdxes)
+				shs, csming.seriesKey = groups[i].TargetShardsHintQuery(measurements[0], groupShardKeyInfo, condition, opt, lookupShardIdxes)
 			} else {
-				shs = groups[i].TargetShards(measurements[0], groupShardKeyInfo, condition, aliveShardIdxes)
+				shs = groups[i].TargetShards(measurements[0], groupShardKeyInfo, condition, lookupShardIdxes)
+			}
+			if config.IsHardWrite() {
+				shs = keepAliveShards(shs, &groups[i], aliveShardIdxes)
 			}
 
 			csm.updateShardInfosByPtID(s, g, shs, &shardInfosByPtID)
@@ -196,6 +205,21 @@ func (csm *ClusterShardMapper) mapMstShards(s *influxql.Measurement, csming *Clu
 		csming.ShardMap[source] = shardInfosByPtID
 	}
 	return nil
+}
+
+// keepAliveShards returns the shards of shs that are among the alive shards of the group, in the order of shs.
+func keepAliveShards(shs []meta2.ShardInfo, sg *meta2.ShardGroupInfo, aliveShardIdxes []int) []meta2.ShardInfo {
+	alive := make(map[uint64]struct{}, len(aliveShardIdxes))
+	for _, idx := range aliveShardIdxes {
+		alive[sg.Shards[idx].ID] = struct{}{}
+	}
+	kept := shs[:0:0]
+	for i := range shs {
+		if _, ok := alive[shs[i].ID]; ok {
+			kept = append(kept, shs[i])
+		}
+	}
+	return kept
 }
 
 func (csm *ClusterShardMapper) updateShardInfosByPtID(s *influxql.Measurement, sg meta2.ShardGroupInfo, shs []meta2.ShardInfo,
